@@ -215,6 +215,8 @@ def run(res, rng, tier, known):
     cases += [proj_case(rng, tier, c, ties) for c in range(16 if tier == "quick" else 200)]
     cases += [grad_case(rng, tier, c) for c in range(15 if tier == "quick" else 120)]
     run_cases(res, cases, known)
+    import einsum2lean
+    einsum2lean.check(res, "C16")      # translator tie: the Gram recursions Pleft / Pright (TT-matrix branch) as written in the current source are the model steps (Lean: rfl)
     # model projection from the captured gauges (exact rationals) vs the real projection (float)
     if ties:
         outs = run_driver([t[0] for t in ties])
